@@ -2,7 +2,7 @@
 import importlib
 
 from symx import E, Case
-from harness.common import call, newdict
+from harness.common import call, newdict, event_map
 from spec import iec_tables as T
 
 import dali.frame as F
@@ -305,8 +305,7 @@ def h_event(ctx, idx):
         # names it, the table frame must come back as this class; without an entry as ambiguous
         import dali.device.helpers as helpers
         import dali.device.general as dg
-        m = helpers.DeviceInstanceTypeMapper()
-        m._mapping = newdict(ctx)
+        m = event_map(ctx)
         st, d = call(C.from_frame, F.ForwardFrame(24, want), dev_inst_map=m)
         ctx.prove(st == "ok" and type(d) is dg.AmbiguousInstanceType,
                   "device/instance table frame without a map entry decodes to %s, not AmbiguousInstanceType"
